@@ -6,7 +6,7 @@
 //   - simrt.Yield(site) before every statement
 //   - go f(a)      -> go simrt.GoCall(id, ellipsis, f, a); go func(){..}() gets simrt.Start(id)
 //   - x.Lock()     -> simrt.Lock(x.TryLock, x.Lock, site); x.Unlock() -> simrt.Unlock(x.Unlock)
-//   - once.Do(f)   -> simrt.OnceDo(once.Do, f)   (atomic section)
+//   - once.Do(f)   -> simrt.OnceDo(&once, once.Do, f)   (atomic section; callers exclude each other like on a lock)
 //   - select       -> tape-ordered probing of the ready cases
 //   - m.Range(f)   -> simrt.RangeSorted(m.Range, f)
 //   - os.Exit(c)   -> simrt.Exit(c)
@@ -149,7 +149,44 @@ func rewriteCalls(n ast.Node) {
 	})
 }
 
+// onceNames: identifiers declared with a ...Once type anywhere in the packages being
+// instrumented (struct fields, variables), collected in a first pass.
+var onceNames = map[string]bool{}
+
+func collectOnceNames(f *ast.File) {
+	isOnce := func(t ast.Expr) bool {
+		return t != nil && strings.HasSuffix(strings.TrimPrefix(exprString(t), "*"), "Once")
+	}
+	ast.Inspect(f, func(n ast.Node) bool {
+		switch t := n.(type) {
+		case *ast.Field:
+			if isOnce(t.Type) {
+				for _, id := range t.Names {
+					onceNames[id.Name] = true
+				}
+			}
+		case *ast.ValueSpec:
+			if isOnce(t.Type) {
+				for _, id := range t.Names {
+					onceNames[id.Name] = true
+				}
+			}
+		}
+		return true
+	})
+}
+
 func isOnceRecv(x ast.Expr) bool {
+	switch t := x.(type) {
+	case *ast.Ident:
+		if onceNames[t.Name] {
+			return true
+		}
+	case *ast.SelectorExpr:
+		if onceNames[t.Sel.Name] {
+			return true
+		}
+	}
 	return strings.Contains(strings.ToLower(exprString(x)), "once")
 }
 
@@ -216,7 +253,7 @@ func processStmt(s ast.Stmt) ast.Stmt {
 		} else if sx, ok := isMethodCall(t.X, "Unlock", "RUnlock"); ok && len(ce.Args) == 0 {
 			t.X = call("Unlock", addrOf(sx.X), sel(sx.X, sx.Sel.Name))
 		} else if sx, ok := isMethodCall(t.X, "Do"); ok && len(ce.Args) == 1 && isOnceRecv(sx.X) {
-			t.X = call("OnceDo", sel(sx.X, "Do"), ce.Args[0])
+			t.X = call("OnceDo", addrOf(sx.X), sel(sx.X, "Do"), ce.Args[0])
 		}
 	case *ast.AssignStmt:
 		rewriteFuncLits(s)
@@ -224,7 +261,7 @@ func processStmt(s ast.Stmt) ast.Stmt {
 		if len(t.Lhs) == 1 && len(t.Rhs) == 1 {
 			if id, ok := t.Lhs[0].(*ast.Ident); ok && id.Name == "_" {
 				if sx, ok := isMethodCall(t.Rhs[0], "Do"); ok && len(t.Rhs[0].(*ast.CallExpr).Args) == 1 && isOnceRecv(sx.X) {
-					return &ast.ExprStmt{X: call("OnceDoErr", sel(sx.X, "Do"), t.Rhs[0].(*ast.CallExpr).Args[0])}
+					return &ast.ExprStmt{X: call("OnceDoErr", addrOf(sx.X), sel(sx.X, "Do"), t.Rhs[0].(*ast.CallExpr).Args[0])}
 				}
 			}
 		}
@@ -456,6 +493,20 @@ func main() {
 	netSet := map[string]bool{}
 	for _, p := range strings.Split(*netPkgs, ",") {
 		netSet[p] = true
+	}
+	for _, dir := range flag.Args() {
+		if strings.HasSuffix(dir, ".go") {
+			dir = filepath.Dir(dir)
+		}
+		files, _ := filepath.Glob(filepath.Join(*repo, dir, "*.go"))
+		for _, fn := range files {
+			if strings.HasSuffix(fn, "_test.go") {
+				continue
+			}
+			if f, err := parser.ParseFile(token.NewFileSet(), fn, nil, 0); err == nil {
+				collectOnceNames(f)
+			}
+		}
 	}
 	nfiles := 0
 	for _, dir := range flag.Args() {
